@@ -230,6 +230,26 @@ def text_converter(mod) -> str:
     page_end = write_text_arg(tail[-1])
     if not (isinstance(page_end, ast.Constant) and isinstance(page_end.value, str)):
         raise P.Untranslatable("TextConverter.receive_layout: page terminator is not a literal")
+    # before render(ltpage): exactly `if self.showpageno: self.write_text(<template of ltpage.pageid>)`
+    head = tail[:-2]
+    if len(head) != 1 or not isinstance(head[0], ast.If) or ast.unparse(head[0].test) != "self.showpageno" \
+            or head[0].orelse or len(head[0].body) != 1:
+        raise P.Untranslatable("TextConverter.receive_layout: the part before render(ltpage) is no longer "
+                               "`if self.showpageno: self.write_text(...)`")
+    pn = template(write_text_arg(head[0].body[0]))
+    if pn is None or [k for k, _ in pn if k != "lit"] != ["raw"] or [v for k, v in pn if k != "lit"] != ["ltpage_pageid"]:
+        raise P.Untranslatable("TextConverter.receive_layout: page-number header is not a template of ltpage.pageid")
+    pn_terms = " ++ ".join(chars(v) if k == "lit" else "pageid" for k, v in pn)
+    # the image branch writes nothing: `elif isinstance(item, LTImage): if self.imagewriter is not None: export`
+    for st in ast.walk(ast.Module(body=second.orelse, type_ignores=[])):
+        if isinstance(st, ast.Attribute) and st.attr in ("write_text", "write"):
+            raise P.Untranslatable("TextConverter.render: the LTImage branch writes text")
+    return ("/-- `write_text` argument of the `if self.showpageno:` statement before `render(ltpage)` -/\n"
+            f"def t_text_page_no (pageid : Str) : Str :=\n  {pn_terms}\n\n" +
+            text_converter_tail(box_end, page_end))
+
+
+def text_converter_tail(box_end, page_end) -> str:
     return ("/-- `write_text` argument after the children of an LTTextBox -/\n"
             f"def t_text_box_end : Str :=\n  {chars(box_end.value)}\n\n"
             "/-- `write_text` argument after `render(ltpage)` -/\n"
@@ -260,6 +280,82 @@ def bbox2str_def() -> str:
         else:
             raise P.Untranslatable("bbox2str: f-string piece " + ast.dump(v)[:80])
     return (f"def bbox2str ({' '.join(names)} : SRat) : List Char :=\n  " + " ++ ".join(terms) + "\n")
+
+
+def get_pts_def() -> str:
+    """layout.LTCurve.get_pts: `<sep>.join(<'%.3f…%.3f'> % p for p in self.pts)` -> Lean over pairs of signed rationals."""
+    mod = P.parse_file("pdfminer/layout.py")
+    fn = P.find_function(mod, "LTCurve.get_pts")
+    if len(fn.body) != 1 or not isinstance(fn.body[0], ast.Return):
+        raise P.Untranslatable("get_pts: shape")
+    e = fn.body[0].value
+    if not (isinstance(e, ast.Call) and isinstance(e.func, ast.Attribute) and e.func.attr == "join"
+            and isinstance(e.func.value, ast.Constant) and isinstance(e.func.value.value, str) and len(e.args) == 1
+            and isinstance(e.args[0], ast.GeneratorExp)):
+        raise P.Untranslatable("get_pts: not <literal>.join(<generator>)")
+    sep = e.func.value.value
+    g = e.args[0]
+    if len(g.generators) != 1 or g.generators[0].ifs or ast.unparse(g.generators[0].iter) != "self.pts" \
+            or not isinstance(g.generators[0].target, ast.Name):
+        raise P.Untranslatable("get_pts: generator is not `for p in self.pts`")
+    var = g.generators[0].target.id
+    elt = g.elt
+    if not (isinstance(elt, ast.BinOp) and isinstance(elt.op, ast.Mod) and isinstance(elt.left, ast.Constant)
+            and isinstance(elt.left.value, str) and isinstance(elt.right, ast.Name) and elt.right.id == var):
+        raise P.Untranslatable("get_pts: element is not <format> % p")
+    fmt = elt.left.value
+    lits = re.split(r"%\.3f", fmt)
+    if len(lits) != 3 or "%" in "".join(lits):
+        raise P.Untranslatable("get_pts: format is not two %.3f fields: " + fmt)
+    terms = []
+    for lit, field in zip(lits, ["fmtF3 p.1", "fmtF3 p.2", None]):
+        if lit:
+            terms.append(chars(lit))
+        if field:
+            terms.append(field)
+    return ("/-- the element of the generator in `LTCurve.get_pts` -/\n"
+            "def ptStr (p : SRat × SRat) : List Char :=\n  " + " ++ ".join(terms) + "\n\n"
+            "/-- `LTCurve.get_pts` -/\n"
+            f"def get_pts (pts : List (SRat × SRat)) : List Char :=\n  strJoin {chars(sep)} (pts.map ptStr)\n")
+
+
+def colourspace_names() -> str:
+    """Every name a PDFColorSpace can carry (what `item.ncs.name` writes into colourspace="…"): the literal list the
+    loop in pdfcolor.py builds PREDEFINED_COLORSPACE from + the names get_colorspace (pdfinterp.py) compares with
+    before constructing a PDFColorSpace(name, …) itself."""
+    mod = P.parse_file("pdfminer/pdfcolor.py")
+    names: List[str] = []
+    loops = [n for n in mod.body if isinstance(n, ast.For)]
+    for lp in loops:
+        if "PREDEFINED_COLORSPACE[name] = PDFColorSpace(name, n)" in ast.unparse(lp):
+            if not isinstance(lp.iter, ast.List):
+                raise P.Untranslatable("PREDEFINED_COLORSPACE is not built from a list literal")
+            for e in lp.iter.elts:
+                if not (isinstance(e, ast.Tuple) and isinstance(e.elts[0], ast.Constant) and isinstance(e.elts[0].value, str)):
+                    raise P.Untranslatable("PREDEFINED_COLORSPACE entry: " + ast.unparse(e))
+                names.append(e.elts[0].value)
+    if not names:
+        raise P.Untranslatable("PREDEFINED_COLORSPACE loop not found")
+    if any("PDFColorSpace(" in ast.unparse(n) for n in ast.walk(mod)
+           if isinstance(n, ast.Call) and n not in [c for lp in loops for c in ast.walk(lp)]):
+        raise P.Untranslatable("pdfcolor.py constructs a PDFColorSpace outside the table loop")
+    imod = P.parse_file("pdfminer/pdfinterp.py")
+    extra: List[str] = []
+    for fn in ast.walk(imod):
+        if isinstance(fn, ast.FunctionDef) and fn.name == "get_colorspace":
+            for iff in ast.walk(fn):
+                if isinstance(iff, ast.If) and any(isinstance(c, ast.Call) and ast.unparse(c.func) == "PDFColorSpace"
+                                                   for st in iff.body for c in ast.walk(st)):
+                    cmp = [c for c in ast.walk(iff.test) if isinstance(c, ast.Compare) and ast.unparse(c.left) == "name"
+                           and len(c.ops) == 1 and isinstance(c.ops[0], ast.Eq) and isinstance(c.comparators[0], ast.Constant)]
+                    if len(cmp) != 1:
+                        raise P.Untranslatable("get_colorspace constructs a PDFColorSpace for a name that is not fixed")
+                    extra.append(cmp[0].comparators[0].value)
+    src = ast.unparse(imod)
+    if src.count("PDFColorSpace(") != len(extra):
+        raise P.Untranslatable("pdfinterp.py constructs PDFColorSpace objects outside get_colorspace's fixed names")
+    return ("/-- every `PDFColorSpace.name` (pdfcolor.PREDEFINED_COLORSPACE + the fixed names of pdfinterp.get_colorspace) -/\n"
+            "def colourSpaceNames : List (List Char) :=\n  [" + ",\n   ".join(chars(n) for n in names + extra) + "]\n")
 
 
 def generate(lean_dir: str):
@@ -301,9 +397,9 @@ def generate(lean_dir: str):
            "\nend PdfVerif.Gen.ConvertXml\n")
     p2 = os.path.join(lean_dir, "PdfVerif", "Gen", "ConvertXml.lean")
     P.write_if_changed(p2, xml)
-    fmt = ("/-\n  GENERATED by /verif/tools/translate/gen_c11.py on every run from pdfminer/utils.py (bbox2str).\n"
+    fmt = ("/-\n  GENERATED by /verif/tools/translate/gen_c11.py on every run from pdfminer/utils.py (bbox2str)\n  and pdfminer/layout.py (LTCurve.get_pts), pdfminer/pdfcolor.py + pdfinterp.py (colour-space names).\n"
            "  Do not edit.\n-/\nimport PdfVerif.Model.Format\n\nnamespace PdfVerif.Gen.ConvertFmt\nopen PdfVerif.Convert\n\n"
-           + bbox2str_def() + "\nend PdfVerif.Gen.ConvertFmt\n")
+           + bbox2str_def() + "\n" + get_pts_def() + "\n" + colourspace_names() + "\nend PdfVerif.Gen.ConvertFmt\n")
     p3 = os.path.join(lean_dir, "PdfVerif", "Gen", "ConvertFmt.lean")
     P.write_if_changed(p3, fmt)
     return [p1, p2, p3]
